@@ -229,6 +229,13 @@ def _literal(P, S):
         for k, n in zip(kws, P["lens"]):
             if n:
                 db[k] = [shared] + [os.urandom(size) for _ in range(n - 1)]
+        if rep == 2 and scheme not in ("CGKO06.SSE2", "DP17.Pi"):
+            # "an identifier that occurs ... several times in one run": the first list repeats the shared identifier
+            # often enough to fill two aligned blocks of the blocked schemes (the unchanged code accepts such lists)
+            copies = 2 * int(cfg.get("param_B", 2))
+            db[kws[0]] = [shared] * copies + db[kws[0]][1:]
+            if scheme == "CJJ14.Pi2Lev":         # its two-level limit on the list length
+                db[kws[0]] = db[kws[0]][:cfg["param_B"] * cfg["param_B_prime"] * cfg["param_b_prime"] - 1]
         if scheme == "CGKO06.SSE2":
             files = set()
             for v in db.values():
